@@ -215,6 +215,74 @@ func run(e entry, bhs [][]step, seed int64, w *bufio.Writer) {
 	}
 }
 
+// decodes feeds every group of the build deterministic byte strings — random blobs, blobs whose
+// 32-byte chunks are close to 2^256 (coordinates >= p), and valid encodings with the field modulus
+// added to one coordinate chunk where it still fits (non-canonical but congruent) — and prints the
+// decoder's verdict and the re-encoding: decoding of untrusted bytes must not depend on the build
+// (assembly vs generic field arithmetic, big.Int vs bigmod).
+func decodes(e entry, seed int64, w *bufio.Writer) {
+	pl := e.G.PointLen()
+	rs := blake2xb.New([]byte(fmt.Sprintf("decode-%d-%s", seed, e.Name)))
+	try := func(tag string, i int, in []byte) {
+		p := e.G.Point()
+		res := "reject"
+		func() {
+			defer func() {
+				if r := recover(); r != nil {
+					res = "panic"
+				}
+			}()
+			if err := p.UnmarshalBinary(in); err == nil {
+				out, _ := p.MarshalBinary()
+				res = "accept:" + hex.EncodeToString(out)
+			}
+		}()
+		fmt.Fprintf(w, "decode:%s|%s|%d|%s\n", e.Name, tag, i, res)
+	}
+	for i := 0; i < 48; i++ {
+		b := make([]byte, pl)
+		rs.XORKeyStream(b, b)
+		try("random", i, b)
+		c := append([]byte(nil), b...)
+		for off := 0; off+32 <= pl; off += 32 {
+			for k := 0; k < 20; k++ {
+				c[off+k] = 0xff
+			}
+		}
+		try("high", i, c)
+	}
+	if fp, ok := fieldModulus[e.Name]; ok && pl%32 == 0 {
+		B := e.G.Point().Base()
+		k := e.G.Scalar().SetInt64(1)
+		for i := 0; i < 24; i++ {
+			P := e.G.Point().Mul(k.SetInt64(int64(3*i+1)), B)
+			enc, _ := P.MarshalBinary()
+			for off := 0; off+32 <= pl; off += 32 {
+				v := new(big.Int).SetBytes(enc[off : off+32])
+				v.Add(v, fp)
+				if v.BitLen() > 256 {
+					continue
+				}
+				c := append([]byte(nil), enc...)
+				v.FillBytes(c[off : off+32])
+				try(fmt.Sprintf("plus-p@%d", off), i, c)
+			}
+		}
+	}
+}
+
+// field moduli of the groups whose encodings are sequences of 32-byte big-endian coordinates
+var fieldModulus = map[string]*big.Int{
+	"bn256-g1": mustBig("65000549695646603732796438742359905742825358107623003571877145026864184071783"),
+	"bn256-g2": mustBig("65000549695646603732796438742359905742825358107623003571877145026864184071783"),
+	"bn256-gt": mustBig("65000549695646603732796438742359905742825358107623003571877145026864184071783"),
+	"bn254-g1": mustBig("21888242871839275222246405745257275088696311157297823662689037894645226208583"),
+	"bn254-g2": mustBig("21888242871839275222246405745257275088696311157297823662689037894645226208583"),
+	"bn254-gt": mustBig("21888242871839275222246405745257275088696311157297823662689037894645226208583"),
+}
+
+func mustBig(s string) *big.Int { v, _ := new(big.Int).SetString(s, 10); return v }
+
 // schemes prints fixed higher-level computations available in every build.
 func schemes(seed int64, w *bufio.Writer) {
 	st := func(l string) kyber.XOF { return blake2xb.New([]byte(fmt.Sprintf("%s-%d", l, seed))) }
@@ -328,6 +396,7 @@ func main() {
 	fmt.Fprintf(w, "#variant %s\n", variant)
 	for _, e := range registry() {
 		run(e, bhs, *seed, w)
+		decodes(e, *seed, w)
 	}
 	schemes(*seed, w)
 	extra(*seed, w)
